@@ -457,7 +457,70 @@ func runTPCDecision(c *core.Ctx) {
 
 // runDecisionRows evaluates decision-table rows against functions of package pkgPath; row.fn is "method" (of defaultType),
 // "Type.method", or ".func" for a package-level function.
+// dtResolvePure: read a single-definition local that merely names a sub-expression (no field of the receiver involved)
+// as that expression. Tables are written against the names the pinned tree uses; a row is first judged that way, and a
+// row that fails is judged again with such locals expanded (a refactoring that hoists `cmd := value.ApplyFunction(k)`
+// out of two comparisons is the same decision). The better verdict counts.
+var dtResolvePure bool
+
+// dtUnroll: paths to an effect may run the body of a loop once before leaving it (the default reading leaves every loop
+// at its header), and a range loop is entered iff the ranged-over collection is non-empty.
+var dtUnroll bool
+
 func runDecisionRows(c *core.Ctx, e *Env, pkgPath, defaultType string, rows []dtRow) {
+	c1 := c.Fork()
+	dtResolvePure, dtUnroll = false, false
+	runDecisionRowsOnce(c1, e, pkgPath, defaultType, rows)
+	// further readings of the same code, tried only for the rows that fail: a row holds if it holds under one of them
+	for _, mode := range [][2]bool{{true, false}, {true, true}} {
+		bad := map[string]bool{}
+		for _, o := range c1.Obs {
+			if o.Verdict != core.OK {
+				bad[o.Construct] = true
+			}
+		}
+		if len(bad) == 0 {
+			break
+		}
+		var retry []dtRow
+		for _, r := range rows {
+			if bad[r.fn+":"+r.key] {
+				retry = append(retry, r)
+			}
+		}
+		if len(retry) == 0 {
+			break
+		}
+		c2 := c.Fork()
+		dtResolvePure, dtUnroll = mode[0], mode[1]
+		runDecisionRowsOnce(c2, e, pkgPath, defaultType, retry)
+		dtResolvePure, dtUnroll = false, false
+		// a row may produce several obligations under one construct: it is better only if none of them fails
+		worse := map[string]bool{}
+		for _, o := range c2.Obs {
+			if o.Verdict != core.OK {
+				worse[o.Construct] = true
+			}
+		}
+		better := map[string]core.Obligation{}
+		for _, o := range c2.Obs {
+			if o.Verdict == core.OK && bad[o.Construct] && !worse[o.Construct] {
+				better[o.Construct] = o
+			}
+		}
+		for i, o := range c1.Obs {
+			if b, ok := better[o.Construct]; ok && o.Verdict != core.OK {
+				c1.Obs[i] = b
+			}
+		}
+	}
+	c.Obs = append(c.Obs, c1.Obs...)
+	for k, v := range c1.Stats {
+		c.Stats[k] += v
+	}
+}
+
+func runDecisionRowsOnce(c *core.Ctx, e *Env, pkgPath, defaultType string, rows []dtRow) {
 	pk := c.Prog.Pkg(pkgPath)
 	if pk == nil {
 		c.Lost(pkgPath, "package not loaded")
@@ -488,6 +551,17 @@ func runDecisionRows(c *core.Ctx, e *Env, pkgPath, defaultType string, rows []dt
 		ev := newDtEval(e)
 		ev.occ = row.occ
 		ev.root = fn.Body()
+		ev.keep = map[string]bool{}
+		for name := range row.ints {
+			for _, id := range rootIdents(name) {
+				ev.keep[id] = true
+			}
+		}
+		for _, name := range row.bools {
+			for _, id := range rootIdents(name) {
+				ev.keep[id] = true
+			}
+		}
 		type eff struct {
 			paths [][]dtGuard
 			value ast.Expr
@@ -833,12 +907,17 @@ func runDecisionRows(c *core.Ctx, e *Env, pkgPath, defaultType string, rows []dt
 			if len(rs) == 0 {
 				return false
 			}
+			locals := 0
 			for _, r := range rs {
+				if r == "nil" || r == "true" || r == "false" {
+					continue
+				}
 				if !localNames[r] {
 					return false
 				}
+				locals++
 			}
-			return true
+			return locals > 0
 		}
 		for name := range ev.intTerms {
 			if !declared[name] && localRooted(name) {
@@ -1158,6 +1237,18 @@ func rootIdents(name string) []string {
 	i := 0
 	for i < len(name) {
 		ch := name[i]
+		if ch == '"' {
+			// skip string literals
+			i++
+			for i < len(name) && name[i] != '"' {
+				if name[i] == '\\' {
+					i++
+				}
+				i++
+			}
+			i++
+			continue
+		}
 		isStart := ch == '_' || (ch >= 'a' && ch <= 'z') || (ch >= 'A' && ch <= 'Z')
 		if !isStart {
 			i++
